@@ -194,7 +194,7 @@ bool StringMatcher :: Match(const char * const str) const
    {
       if (_flags.IsBitSet(STRINGMATCHER_FLAG_REGEXVALID)) ret = (regexec(&_regExp, str, 0, NULL, 0) != REG_NOMATCH);
    }
-   else if (muscleInRange(str[0], '0', '9'))
+   else if ((muscleInRange(str[0], '0', '9'))&&(str[strspn(str, "0123456789")] == '\0'))  // numeric ranges match only strings that are entirely numeric
    {
       const uint32 id = (uint32) Atoull(str);
       for (uint32 i=0; i<_ranges.GetNumItems(); i++)
